@@ -1,6 +1,13 @@
 #!/bin/sh
-# run every claimed quick check on the current tree (evidence refresh before a commit)
-cd /verif
-for id in $(python3 -c "import json;print(' '.join(c['property_id'] for c in json.load(open('MANIFEST.json'))['checks']))"); do
-  ./check $id --tier ${1:-quick} > .build/all-$id.log 2>&1; echo "$id rc=$? $(grep -c '^KNOWN-FINDING' .build/all-$id.log) known; $(head -1 .build/all-$id.log | cut -c1-160)"
+# lib/run_all.sh [quick|thorough] [ID...] — run the claimed checks on the current tree, one after the other
+# (evidence refresh before a commit; also usable from a `vp run` snapshot: works relative to its own location)
+cd "$(dirname "$0")/.." || exit 9
+TIER=${1:-quick}; [ $# -gt 0 ] && shift
+IDS=${*:-$(python3 -c "import json;print(' '.join(c['property_id'] for c in json.load(open('MANIFEST.json'))['checks']))")}
+mkdir -p .build
+for id in $IDS; do
+  t0=$(date +%s)
+  ./check $id --tier $TIER > .build/all-$id-$TIER.log 2>&1; rc=$?
+  echo "$id rc=$rc $(( $(date +%s) - t0 ))s $(grep -c '^KNOWN-FINDING' .build/all-$id-$TIER.log) known; $(grep -E '^C[0-9]+ tier=' .build/all-$id-$TIER.log | tail -1 | cut -c1-200)"
+  grep -E "^(VIOLATION|INCONCLUSIVE|ENCODING|VACUOUS|BUILD-FAILURE|SOLVER|ENGINE)" .build/all-$id-$TIER.log | head -5
 done
